@@ -131,7 +131,7 @@ def make_traj_case(rng, traj_case):
     name = "".join(rng.choice(NAME_TOKENS) for _ in range(rng.randint(0, 4)))
     p = rng.choice(DIR_TOKENS) + name
     if rng.random() < 0.1:
-        p = rng.choice(["d/", "", ".json", "d/.json", "..json", "a.json.json", "a.json/b"])
+        p = rng.choice(["d/", "", ".json", "d/.json", "..json", "a.json.json", "zz.json/b"])
     return {"kind": "trajfiles", "p": p, "absolute": rng.random() < 0.3, "traj": traj_case}
 
 
@@ -149,7 +149,7 @@ def observe_traj(c):
         tr = c12.py_trajectory(strengths, U, ro, c["traj"])
         p = c["p"]
         # the directories the name mentions exist (saving creates files, not directories)
-        for d in ("d/e", "é é", "a.json"):
+        for d in ("d/e", "é é", "zz.json"):        # (no generated file name is one of these)
             os.makedirs(os.path.join(scratch, d), exist_ok=True)
         before = set(_files(scratch))
         arg = os.path.join(scratch, p) if c["absolute"] else p
